@@ -1043,10 +1043,36 @@ static int callGibbs(const GibbsCase& c, int seed, Cols& out)
   out = newColumns(db.get(), ncol0);
   return err;
 }
+// condition number of the covariance matrix of the samples (the sampler inverts / factorises it)
+static double kappaGibbs(const GibbsCase& c)
+{
+  std::unique_ptr<Db> db(Db::create());
+  int n = (int)c.lo.size();
+  for (int d = 0; d < c.ndim; d++)
+  {
+    VectorDouble x((size_t)n);
+    for (int i = 0; i < n; i++) x[(size_t)i] = c.pts[(size_t)i * c.ndim + d];
+    db->addColumns(x, "x" + std::to_string(d + 1), ELoc::X, d);
+  }
+  db->addColumns(VectorDouble((size_t)n, 0.), "z", ELoc::Z, 0);
+  std::unique_ptr<Model> model = buildModel(c.ndim, 1, c.strucs, {}, -1);
+  MatrixSquareSymmetric C = model->evalCovMatrixSymmetric(db.get());
+  int m = C.getNRows();
+  Eigen::MatrixXd M(m, m);
+  for (int i = 0; i < m; i++)
+    for (int j = 0; j < m; j++) M(i, j) = C.getValue(i, j);
+  Eigen::SelfAdjointEigenSolver<Eigen::MatrixXd> es(M, Eigen::EigenvaluesOnly);
+  double lmin = es.eigenvalues().minCoeff(), lmax = es.eigenvalues().maxCoeff();
+  if (!(lmin > 0)) return INFINITY;
+  return lmax / lmin;
+}
 static void runGibbs(const GibbsCase& c, Ctx& ctx)
 {
   resetGlobals(c.ndim);
   int n = (int)c.lo.size();
+  ctx.at("evalCovMatrixSymmetric");
+  double kappa = kappaGibbs(c);
+  if (getenv("VERIF_TIMING")) diag(fmt("DBG kappa=%g", kappa));
   ctx.label(c.multiMono ? "algo:multimono" : (c.moving ? "algo:moving" : "algo:unique"));
   ctx.label(c.nburn == 0 ? "nburn:0" : "nburn:>0");
   ctx.label(fmt("ndim:%d", c.ndim));
@@ -1057,6 +1083,9 @@ static void runGibbs(const GibbsCase& c, Ctx& ctx)
   int e2 = callGibbs(c, c.seed, b);
   if (e1 != e2) { ctx.fail("repro:gibbs:status", fmt("error codes %d then %d", e1, e2)); return; }
   if (e1 != 0) { ctx.label("rejected"); return; } // e.g. covariance matrix reported singular: a documented error return
+  // the conditional means and variances come from the inverse (or the sparse factor) of the covariance matrix:
+  // beyond kappa 1e10 they are noise (NaN with the moving variant) and nothing is asserted (DESIGN 3)
+  if (!(kappa <= 1e10)) { ctx.inconclusive("ill-conditioned"); return; }
   if ((int)a.size() != c.nbsimu) { ctx.fail("columns:gibbs", fmt("%d output columns for nbsimu=%d", (int)a.size(), c.nbsimu)); return; }
   std::string d = diffCols(a, b);
   if (!d.empty()) { ctx.fail("repro:gibbs", "same call twice differs: " + d); return; }
@@ -1283,7 +1312,7 @@ static void runPgs(const PgsCase& c, Ctx& ctx)
   const std::string pk = (ngrf == 2 && c.nbsimu > 1) ? "pgs:2grf-multisimu:" : (nd == 1 ? "pgs:single-datum:" : "pgs:");
   if (c.cond)
   {
-    if (c.gaus) w.rule->setProportions(toVD(c.props));
+    // the rule keeps the thresholds it used inside simpgs (constant proportions): they are read back, not recomputed
     for (int k = 0; k < nd; k++)
     {
       int t = c.place[(size_t)k], f = c.facies[(size_t)k];
@@ -1304,7 +1333,6 @@ static void runPgs(const PgsCase& c, Ctx& ctx)
             bool onThr = false;
             if (callPgs(cg, c.seed, g, &wg) == 0 && (int)g.size() == ngrf * c.nbsimu)
             {
-              wg.rule->setProportions(toVD(c.props));
               VectorDouble th = wg.rule->getThresh(f);
               for (int gi = 0; gi < ngrf && th.size() == 4; gi++)
               {
@@ -1336,6 +1364,7 @@ static void runPgs(const PgsCase& c, Ctx& ctx)
           VectorDouble th = w.rule->getThresh(f);
           for (int g = 0; g < ngrf && th.size() == 4; g++) onThr = onThr || sameBits(y[g], th[(size_t)(2 * g)]) || sameBits(y[g], th[(size_t)(2 * g + 1)]);
         }
+        if (flib != f && getenv("VERIF_TIMING")) { VectorDouble th = w.rule->getThresh(f); diag(fmt("DBG f=%d y=%.17g th=%.17g %.17g %.17g %.17g", f, y[0], th[0], th[1], th[2], th[3])); }
         if (flib != f)
         { ctx.fail(pk + (onThr ? "on-threshold:data-gauss-rule" : "data-gauss-rule"), fmt("simulation %d: gaussians (%.17g, %.17g) at datum %d give facies %d, observed %d", s + 1, y[0], y[1], k, flib, f)); return; }
       }
